@@ -91,6 +91,13 @@ def function_cases(sp, rng):
     A("wavelet.iwt", lambda a: sp.iwt(a, [6, 5], sp.wavelet.get_wavelet_shape([6, 5])[1]), [r(*sp.wavelet.get_wavelet_shape([6, 5])[0])])
     A("mri.util.get_cov", lambda a: mutil.get_cov(a), [r(3, 4, 5)])
     A("mri.util.whiten", lambda a, c: mutil.whiten(a, c), [r(3, 4, 5), np.eye(3) + 0j])
+    # shapes for which the [num_coils, -1] reshape inside the function is a VIEW in every layout: 2-D data, a single coil
+    hpd = lambda n: (lambda m: m @ m.conj().T + n * np.eye(n))(r(n, n))          # noqa: E731
+    A("mri.util.whiten-2d", lambda a, c: mutil.whiten(a, c), [r(3, 7), hpd(3)])
+    A("mri.util.whiten-1coil", lambda a, c: mutil.whiten(a, c), [r(1, 6), hpd(1)])
+    A("mri.util.whiten-realcov", lambda a, c: mutil.whiten(a, c), [r(2, 5), np.real(hpd(2))])
+    A("mri.util.get_cov-2d", lambda a: mutil.get_cov(a), [r(3, 9)])
+    A("mri.util.get_cov-1coil", lambda a: mutil.get_cov(a), [r(1, 6)])
     return cases
 
 
@@ -196,12 +203,16 @@ def run(ctx):
             a = complex(rng.randint(-3, 3), rng.randint(-3, 3))
             ctx.count("C02:real-dtype:" + kind, key=(kind, repr(B)[:120], k), sample={"kind": kind, "operator": repr(B)[:160]})
             o_r, o_c = np.asarray(B(xr)), np.asarray(B(xc))
-            if o_r.shape != o_c.shape or not np.allclose(o_r, o_c, rtol=1e-10, atol=1e-10):
+            # fft / nufft compute a real-dtype input in complex64 BY DESIGN: single-precision tolerance for trees that contain them
+            single = any(w in repr(B) for w in ("FFT", "NUFFT", "Wavelet", "Interpolate", "Gridding"))
+            t1, t2 = (3e-4, 3e-4) if single else (1e-10, 1e-9)
+            sc = 1 + (float(np.abs(o_c).max()) if o_c.size else 0.0)
+            if o_r.shape != o_c.shape or not np.allclose(o_r, o_c, rtol=t1, atol=t1 * sc):
                 bad.setdefault("real-dtype:" + kind, ("%s applied to a real-dtype array differs from the same values stored as complex (max diff %.3g): "
                                                       "the imaginary part is dropped or not conjugated" % (kind, float(np.abs(o_r - o_c).max()) if o_r.shape == o_c.shape else -1),
                                                       {"operator": repr(B), "input": xr.tolist().__repr__()}))
             l, r = np.asarray(B(a * xr + y2)), a * o_r + np.asarray(B(y2))
-            if not np.allclose(l, r, rtol=1e-9, atol=1e-9):
+            if not np.allclose(l, r, rtol=t2, atol=t2 * (1 + float(np.abs(r).max()) if r.size else 1.0)):
                 bad.setdefault("real-dtype-linear:" + kind, ("%s is not linear when x is stored in a real dtype" % kind, {"operator": repr(B)}))
         except Exception as e:
             bad.setdefault("real-dtype-exception", ("operator raised %r on a real-dtype input" % e, {"error": repr(e)}))
